@@ -796,12 +796,48 @@ func BV2Nat(a *Term) *Term {
 }
 
 // Int2BV (only folded on literals; symbolic use is recorded by the caller).
+// IntDefs: defining terms of named Int values (filled when the executor introduces a name for a
+// large term), so that conversions back to bit-vectors can see through the name.
+var IntDefs = map[string]*Term{}
+
 func Int2BV(a *Term, w int) *Term {
 	if a.IsIntLit() {
 		return BVBig(a.Val, w)
 	}
+	if a.Op == "var" {
+		if d, ok := IntDefs[a.Name]; ok {
+			return Int2BV(d, w)
+		}
+	}
 	if a.Op == "bv2nat" {
 		return BVResize(a.Args[0], w)
+	}
+	// int2bv is a ring homomorphism Z -> Z/2^w: push it through ite, +, -, * by constants
+	// (the recursion only descends through these Int operators and stops at bv2nat / variables)
+	{
+		switch a.Op {
+		case "ite":
+			return Ite(a.Args[0], Int2BV(a.Args[1], w), Int2BV(a.Args[2], w))
+		case "+":
+			r := Int2BV(a.Args[0], w)
+			for _, x := range a.Args[1:] {
+				r = BVBin("bvadd", r, Int2BV(x, w))
+			}
+			return r
+		case "-":
+			if len(a.Args) == 1 {
+				return BVNeg(Int2BV(a.Args[0], w))
+			}
+			r := Int2BV(a.Args[0], w)
+			for _, x := range a.Args[1:] {
+				r = BVBin("bvsub", r, Int2BV(x, w))
+			}
+			return r
+		case "*":
+			if len(a.Args) == 2 && (a.Args[0].IsIntLit() || a.Args[1].IsIntLit()) {
+				return BVBin("bvmul", Int2BV(a.Args[0], w), Int2BV(a.Args[1], w))
+			}
+		}
 	}
 	return &Term{Op: "int2bv", Val: big.NewInt(int64(w)), Args: []*Term{a}, S: SBV(w)}
 }
